@@ -17,13 +17,19 @@ func H_witness() {
 }
 
 // H_cancel. Params: nf (number of files, each B+1 bytes), damage (bitmask of files whose
-// last byte is flipped; bit 8: first file deleted; bit 9: target directory missing; bit 10: target is a regular file), cancel (0 none, 1 before the call,
+// last byte is flipped; bit 8: first file deleted; bit 9: target directory missing; bit 10: target is a regular file; bit 11: two more dirs and two symlinks in the build, all four wounded), cancel (0 none, 1 before the call,
 // 2 by a concurrent goroutine at any scheduling point), mode (0 fail-fast, 1 wounds file, 2 printer).
 func H_cancel() {
 	hlib.SetCopyBuf()
 	B := hlib.B()
 	nf, damage := rt.Param("nf"), rt.Param("damage")
 	b := &hlib.Build{Dirs: []string{"d"}}
+	if rt.Param("damage")&(1<<11) != 0 {
+		// more entries of the other kinds, all of them wounded below: dir and symlink wounds alone exceed the
+		// (scaled) wound channel before the first file is looked at
+		b.Dirs = []string{"d", "e", "g"}
+		b.Links = []hlib.Link{{Path: "l1", Dest: "f0"}, {Path: "l2", Dest: "f1"}}
+	}
 	for i := 0; i < nf; i++ {
 		data := make([]byte, B+1)
 		for j := range data {
@@ -54,6 +60,14 @@ func H_cancel() {
 		// the target is a regular file
 		hlib.Must(os.RemoveAll(dir), "remove target")
 		hlib.Must(os.WriteFile(dir, []byte{1}, 0o644), "file instead of target")
+	}
+	if damage&(1<<11) != 0 {
+		hlib.Must(os.Remove(dir+"/e"), "remove dir")
+		hlib.Must(os.Remove(dir+"/g"), "remove dir")
+		hlib.Must(os.WriteFile(dir+"/g", []byte{1}, 0o644), "file instead of dir")
+		hlib.Must(os.Remove(dir+"/l1"), "remove symlink")
+		hlib.Must(os.Remove(dir+"/l2"), "remove symlink")
+		hlib.Must(os.Symlink("elsewhere", dir+"/l2"), "retarget symlink")
 	}
 	valid := damage == 0
 
